@@ -44,6 +44,17 @@ class Monitor:
 
     def events(self) -> list:
         evs = [["idreq", 255, 255], ["idreq", 255, 7]]
+        reg = sorted(self.s.gateway.nodes)
+        top = reg[-1] if reg else 0
+        # a request that carries a registered node's own id (a node asking for a new id), asleep or not
+        if reg and reg[0] != 255:
+            evs.append(["idreq", reg[0], 255])
+            if R.is2x(self.pv) and reg[0] != 0:
+                evs.append(["sleep", reg[0]])
+        # a stray message from a node that is not registered: the id just above the highest one, and 254
+        for stray in sorted({top + 1, 254}):
+            if 0 < stray <= 254 and stray not in self.s.gateway.nodes:
+                evs.append(["stray", stray])
         if self.handed:
             evs.append(["present-last"])
         for u in self.present_pool:
@@ -72,7 +83,7 @@ class Monitor:
             s.transport.on_write = None
             self.last_desc = out.describe()
             self.nontrivial = True
-            writes = [w for w in out.writes if w != "0;255;3;0;2;\n"]  # version query (C06) tolerated
+            writes = [w for w in out.writes if w != "0;255;3;0;2;\n" and not (w.split(";")[2] == "3" and w.split(";")[4] == "19")]  # version query (C06) / presentation request (C10) tolerated
             if out.kind == "yield":
                 resp = [w for w in writes if w.split(";")[2:5] == ["3", "0", "4"] or (w.split(";")[2] == "3" and w.split(";")[4] == "4")]
                 if len(writes) != 1 or len(resp) != 1:
@@ -111,6 +122,18 @@ class Monitor:
                     bad("error-while-free", f"too-many-nodes raised although ids above the highest registered id {top} are free")
             else:
                 bad("other-outcome", f"id request gave {out.describe()}")
+        elif ev[0] == "sleep":
+            out = s.line(f"{ev[1]};255;3;0;{R.wake_type(self.pv)};0")
+            self.last_desc = out.describe()
+            self.nontrivial = False
+        elif ev[0] == "stray":
+            out = s.line(f"{ev[1]};3;1;0;2;x")
+            self.last_desc = out.describe()
+            self.nontrivial = False
+            if out.kind != "raise" or type(out.exc).__name__ != "MissingNodeError":
+                bad("stray-not-rejected", f"a set from the unregistered node {ev[1]} gave {out.describe()}")
+            if canon_nodes(gw.nodes) != before_canon:
+                bad("stray-changed-registry", f"a set from the unregistered node {ev[1]} changed the registry")
         else:
             n = self.handed[-1] if ev[0] == "present-last" else ev[1]
             out = s.line(f"{n};255;0;0;17;{self.pv}")
